@@ -686,11 +686,6 @@ def shrink_case(ctx, exe, c, key, timeout):
     return c2 if any(k == key for _, k, _ in a["issues"]) else c
 
 
-ALIASES = [
-    # a loop record allocated by an immediate FOR at compile time is freed by the first basic_run and stays in the owner (listed key 6)
-    (re.compile(r"^asan-heap-use-after-free:PBasic::clearloops<"), "asan-heap-use-after-free:PBasic::clearloops-PBasic::cmdnew"),
-    (re.compile(r"^asan-attempting-double-free:PBasic::clearloops<"), "asan-heap-use-after-free:PBasic::clearloops-PBasic::cmdnew"),
-]
 KNOWN_KEYS = {
     # issue key produced by analyse → key in known_findings.txt
     "asan-SEGV:PBasic::factor<PBasic::upexpr": "basic-peek-poke",
@@ -723,9 +718,6 @@ def finding_key(key, c):
     if EXTREME_UB.match(key) and has_extreme_number(c):
         # pure integer-arithmetic UB (signed overflow, negation of INT_MIN, out-of-range float→int conversion) driven by an extreme number in the input
         return "ubsan-extreme-integer-input"
-    for rx, k_ in ALIASES:
-        if rx.match(key):
-            return k_
     if key in KNOWN_KEYS:
         text = b" ".join(p for _, p in c["ops"]).lower()
         if b"peek" in text or b"poke" in text:
